@@ -557,6 +557,12 @@ def NUMERAL_DIGITS(base):
     return Numeral(base, 1, 1, True)
 
 
+def CLASS_TEXT_WF(t):
+    """'.', or a bracket text whose only escapes are the six characters the class layer escapes (no \\n, \\d ... items)"""
+    import re
+    return t == "." or re.fullmatch(r"\[\^?(?:[^\\\[\]]|\\[\\^\[\]\-/])*\]", t, re.S) is not None
+
+
 def EV(items):
     """what a set of (escaped) class items - range strings and single characters - denotes: as `re` reads them in brackets"""
     items = sorted(items)
